@@ -107,7 +107,7 @@ NarrowIdx == { <<"n", T, N, sh[1], sh[2], p, v>> :
 \* wide series: many particles, few frames (size thresholds can be on N as well as on T)
 WideShapes == IF Tier = "quick"
               THEN {<<0, 1, 600>>, <<0, 1, 1300>>, <<1, 2, 300>>, <<1, 3, 1100>>, <<2, 2, 200>>, <<2, 2, 520>>}
-              ELSE {<<0, 1, 600>>, <<0, 1, 2500>>, <<0, 1, 10007>>, <<1, 2, 300>>, <<1, 3, 1200>>, <<1, 2, 4099>>,
+              ELSE {<<0, 1, 600>>, <<0, 1, 2500>>, <<0, 1, 5003>>, <<1, 2, 300>>, <<1, 3, 1200>>, <<1, 2, 2053>>,
                     <<2, 2, 200>>, <<2, 2, 700>>, <<2, 3, 1030>>}
 WidePatterns == << <<0, 1, 2>>, <<0, 1, 3>> >>
 WideSets == << Flags, RealSet, GaussSet >>
